@@ -537,7 +537,10 @@ class C08(CreateProp):
                 sizes = (P + 1,) * k
             tree = mk_tree(sh, sizes, nv=b % 6 if b % 2 else 0)
             infoopts = [{}, {"private": True}, {"source": "SRC", "comment": "a comment é"},
-                        {"private": True, "source": "x", "comment": "y"}][b % 4]
+                        {"private": True, "source": "x", "comment": "y"},
+                        # text that LOOKS like a template of some kind (dates, names, variables): it is plain text
+                        {"comment": "snapshot %Y-%m-%d %H:%M:%S, 100% done {name} $HOME ~ %(v)s", "source": "{date} %s %j"},
+                        {}][b % 6]
             g += 1
             grp = "c08-%d" % g
             cr = creators[v][b % len(creators[v])]
